@@ -70,6 +70,7 @@ type c20Shared struct {
 	dlgPrivs []*gen.Principal
 	sealed   []byte
 	invCid   cid.Cid
+	dlgSeal  [][]byte
 	// baseline (private copy)
 	base *c20Shared
 }
@@ -140,6 +141,12 @@ func c20Build(w *mon.W, k int, decoded bool) *c20Shared {
 	for _, i := range r.Perm(k) {
 		argsV.M = append(argsV.M, ref.KV{K: fmt.Sprintf("key%03d", i), V: gen.Value(r, 1, gen.ValOpts{NoNull: true})})
 	}
+	// two list-valued arguments of a length that varies from token to token
+	items := ref.V{K: ref.KList, L: []ref.V{}}
+	for i := 0; i < 2+r.IntN(6); i++ {
+		items.L = append(items.L, ref.Int(int64(1+r.IntN(5))))
+	}
+	argsV.M = append(argsV.M, ref.KV{K: "zitems", V: items}, ref.KV{K: "ztext", V: ref.Str("héllo wörld, " + fmt.Sprint(k))})
 	sc.Args = argsV
 	// policies over the arguments on every link (true statements)
 	var paths []gen.Path
@@ -150,6 +157,16 @@ func c20Build(w *mon.W, k int, decoded bool) *c20Shared {
 				sc.Links[i].Pol = append(sc.Links[i].Pol, st)
 			}
 		}
+	}
+	// statements whose selectors carry open / negative slice bounds (resolved against the
+	// length of whatever they are applied to)
+	open1, neg2 := ref.I64(1), ref.I64(-2)
+	for i := range sc.Links {
+		sc.Links[i].Pol = append(sc.Links[i].Pol,
+			ref.Stmt{Kind: "all", Sel: ref.Sel{{Kind: ref.SField, Name: "zitems"}, {Kind: ref.SSlice, Lo: open1}}, Subs: []ref.Stmt{{Kind: ">", Sel: ref.Sel{}, Val: ref.Int(0)}}},
+			ref.Stmt{Kind: "any", Sel: ref.Sel{{Kind: ref.SField, Name: "zitems"}, {Kind: ref.SSlice, Lo: neg2}}, Subs: []ref.Stmt{{Kind: ">=", Sel: ref.Sel{}, Val: ref.Int(1)}}},
+			ref.Stmt{Kind: "like", Sel: ref.Sel{{Kind: ref.SField, Name: "ztext"}, {Kind: ref.SSlice, Hi: ref.I64(-3)}}, Pat: "h*"},
+		)
 	}
 	b, err := sc.Build(r)
 	if err != nil {
@@ -182,7 +199,7 @@ func c20Build(w *mon.W, k int, decoded bool) *c20Shared {
 		w.Inconclusive("C20 seal: " + err.Error())
 		return nil
 	}
-	s := &c20Shared{k: k, decoded: decoded, inv: inv, dlgs: b.Dlgs, loader: b.Loader, priv: sc.Invoker, sealed: sealed, invCid: c}
+	s := &c20Shared{k: k, decoded: decoded, inv: inv, dlgs: b.Dlgs, loader: b.Loader, priv: sc.Invoker, sealed: sealed, invCid: c, dlgSeal: b.Sealed}
 	for _, l := range sc.Links {
 		s.dlgPrivs = append(s.dlgPrivs, l.Iss)
 	}
@@ -232,6 +249,24 @@ func (s *c20Shared) privateCopy(w *mon.W) *c20Shared {
 	}
 	p := *s
 	p.inv = d
+	// private delegations too: decoded afresh from the sealed bytes, behind a private loader
+	ml := &chain.MapLoader{M: map[cid.Cid]*delegation.Token{}, Errs: map[cid.Cid]bool{}}
+	p.dlgs = nil
+	for _, sb := range s.dlgSeal {
+		dl, c, err := delegation.FromSealed(sb)
+		if err != nil {
+			return nil
+		}
+		ml.M[c] = dl
+	}
+	for _, pc := range d.Proof() {
+		dl, ok := ml.M[pc]
+		if !ok {
+			return nil
+		}
+		p.dlgs = append(p.dlgs, dl)
+	}
+	p.loader = ml
 	return &p
 }
 
@@ -362,6 +397,22 @@ func c20Ops() []c20Op {
 			}
 			ok, _ := s.dlgs[0].Policy().Match(n)
 			return fmt.Sprint(ok)
+		}},
+		{"Delegation.Policy.Match(other-lengths)", func(s *c20Shared) string {
+			out := ""
+			for _, n := range []int{2, 9, 4} {
+				l := ref.V{K: ref.KList, L: []ref.V{}}
+				for i := 0; i < n; i++ {
+					l.L = append(l.L, ref.Int(int64(i%3))) // contains zeros beyond the first element
+				}
+				data := ref.Map(ref.E("zitems", l), ref.E("ztext", ref.Str(strings.Repeat("h", n+3))))
+				for _, d := range s.dlgs {
+					ok, _ := d.Policy().Match(data.Node())
+					pk, _ := d.Policy().PartialMatch(data.Node())
+					out += fmt.Sprint(n, ok, pk, ";")
+				}
+			}
+			return out
 		}},
 		{"Delegation.Meta+Accessors", func(s *c20Shared) string {
 			d := s.dlgs[0]
